@@ -394,6 +394,26 @@ func (p *parser) typeName() string {
 			if strings.HasSuffix(prev, "]") || strings.HasSuffix(prev, "*") {
 				continue
 			}
+			// generic instantiation Name[T1,T2]
+			if p.isOp("[") && !strings.HasPrefix(prev, "map") {
+				depth := 0
+				for {
+					tk := p.next()
+					if tk.k == "eof" {
+						break
+					}
+					sb.WriteString(tk.v)
+					if tk.k == "op" && tk.v == "[" {
+						depth++
+					}
+					if tk.k == "op" && tk.v == "]" {
+						depth--
+						if depth == 0 {
+							break
+						}
+					}
+				}
+			}
 			return sb.String()
 		}
 		if t.k == "num" { // [16]byte
@@ -457,6 +477,7 @@ type LoopSpec struct {
 	Invariants []*Clause
 	Modifies   []Expr
 	Decreases  Expr
+	Preserves  []Expr
 }
 
 type CallSiteSpec struct {
@@ -549,9 +570,10 @@ type Structural struct {
 }
 
 type GlobalGhost struct {
-	Name string
-	Typ  string
-	Pkg  string
+	Name     string
+	Typ      string
+	Pkg      string
+	Monotone bool
 }
 
 func NewSpecDB() *SpecDB {
@@ -661,7 +683,12 @@ func (db *SpecDB) LoadSpecFile(path, pkgPath string) error {
 				return fail(i, "expected 'ghost var'")
 			}
 			name, typ := splitWord(r2)
-			db.Ghosts[name] = &GlobalGhost{Name: name, Typ: typ, Pkg: curPkg}
+			mono := false
+			if strings.HasSuffix(typ, " monotone") { // a counter that only grows (e.g. the clock)
+				mono = true
+				typ = strings.TrimSpace(strings.TrimSuffix(typ, " monotone"))
+			}
+			db.Ghosts[name] = &GlobalGhost{Name: name, Typ: typ, Pkg: curPkg, Monotone: mono}
 		case "global":
 			// global pkg.Name = expr  (package-level var treated as a constant)
 			k := strings.Index(rest, "=")
@@ -814,6 +841,16 @@ func (db *SpecDB) LoadSpecFile(path, pkgPath string) error {
 							return err
 						}
 						ls.Modifies = append(ls.Modifies, e)
+					}
+				case "preserves":
+					// loop k preserves <loc>, <loc>: locations the loop does not write (kept across the loop-head
+					// havoc; checked to be unchanged on every back edge)
+					for _, part := range splitTop(r3, ',') {
+						e, err := parse(part)
+						if err != nil {
+							return err
+						}
+						ls.Preserves = append(ls.Preserves, e)
 					}
 				case "decreases":
 					e, err := parse(r3)
